@@ -44,7 +44,7 @@ Theorem C03_merged_view : forall (E : list Z -> list Z -> list Z) kp ks c0 mask 
   chained rs 0 (len P) ->
   (forall a b l o, In (a, b, l) rs -> a <= o < b -> mask o = l) ->
   concat (map (view_of E kp ks c0 (enc_mixed E kp ks c0 mask 0 P)) rs) = P.
-Proof. intros. rewrite (merged_view_plain E kp ks c0 mask P rs 0) by (auto; lia). reflexivity. Qed.
+Proof. intros. rewrite (merged_view_plain E kp ks c0 mask P rs 0) by (auto; lia). apply drop_0. Qed.
 
 Print Assumptions C03_flags.
 Print Assumptions C03_counter.
